@@ -52,7 +52,7 @@ def r5(ctx):
     flat_tree's partial functions (parent, sibling, ...: they shift by depth + 1 / depth + 2) only
     under `depth(index) < 62` — 2^64-1 is one of the varint boundaries C11 quantifies over (defect
     D16); (b) Node::new_blank builds the 32-byte zero hash the codec's fixed 32 bytes stand for, not
-    a 2-byte one (defect D17)."""
+    a 2-byte one (defect D17); (c) new_blank and new agree on the derived fields (defect D25)."""
     rule = "C11.R5"
     NEW, BLANK = "common::node::Node::new", "common::node::Node::new_blank"
     fa = ctx.fn(NEW)
@@ -74,8 +74,13 @@ def r5(ctx):
         rets = [t for _, _, t in ret_assigns(fb)]
         good = False
         shown = None
-        if rets and is_agg(rets[0]):
+        via_new = bool(rets) and isinstance(strip(rets[0]), tuple) and strip(rets[0])[0] == "call" and strip(rets[0])[2] == NEW and len(strip(rets[0])[3]) == 3
+        h = None
+        if via_new:
+            h = strip(strip(rets[0])[3][1])
+        elif rets and is_agg(rets[0]):
             h = strip(agg_field(rets[0], "hash"))
+        if h is not None:
             shown = term_str(h)[:60]
             if h[0] == "call" and h[2].split("::")[-1] == "from_elem" and len(h[3]) == 2:
                 good = ev(ctx, h[3][0]) == 0 and ev(ctx, h[3][1]) == 32
@@ -86,6 +91,28 @@ def r5(ctx):
         ctx.check(P, rule, "Node::new_blank builds a 32-byte zero hash", good, "hash = vec![0; 32]",
                   "Node::new_blank builds its hash as %s: the node announces 34 bytes but cannot be encoded (the codec writes the hash as 32 fixed bytes), and flush_nodes panics on it after a replayed truncation" % shown,
                   key="C11|C11.R5|Node::new_blank|hash length")
+        # (c) the two constructors agree on the fields that are not on the wire (parent, data, blank):
+        # decode builds its node with Node::new, so a blank node must be what Node::new makes of
+        # (index, zero hash, 0) — otherwise it differs from the decoding of its own encoding (D25)
+        if via_new:
+            c = strip(rets[0])
+            agree = strip(c[3][0]) == ("param", "index") and ev(ctx, c[3][2]) == 0
+            why = "new_blank = Node::new(index, zero hash, 0)"
+            diff = "Node::new is called with (%s, .., %s)" % (term_str(c[3][0])[:30], term_str(c[3][2])[:30])
+        else:
+            agree, diff = False, "no Node aggregate"
+            ra = [t for _, _, t in ret_assigns(fa)] if fa is not None else []
+            if rets and is_agg(rets[0]) and ra and is_agg(ra[0]):
+                d = []
+                for f_ in ("parent", "data"):
+                    a, b = agg_field(rets[0], f_), agg_field(ra[0], f_)
+                    if a is None or b is None or term_sig(unwrap_ovf(strip(a))) != term_sig(unwrap_ovf(strip(b))):
+                        d.append("%s: %s vs %s" % (f_, term_str(a)[:50] if a is not None else None, term_str(b)[:50] if b is not None else None))
+                agree, diff = not d, "; ".join(d)
+            why = "parent and data built as in Node::new"
+        ctx.check(P, rule, "Node::new_blank and Node::new agree on the fields that are not on the wire", agree, why,
+                  "Node::new_blank fills the derived fields differently from Node::new, which every decoder uses (%s): a blank node is not equal to the decoding of its own encoding" % diff,
+                  key="C11|C11.R5|Node::new_blank|derived fields")
 
 
 RULES = [r123, r4, r5]
@@ -93,6 +120,6 @@ EXPLANATION = ("C11 (wire messages round-trip and follow the compact-encoding la
                "CompactEncoding impl (macro and hand-written forms alike), that encode writes the reference field sequence with the reference byte shapes (varint / length-prefixed bytes / "
                "32 fixed bytes / node list), that decode consumes the same shapes in the same order and puts the k-th value into the k-th encoded field, and that encoded_size sums exactly "
                "those fields plus a constant equal to the fixed bytes written (R1-R3); that every panic-capable construct reachable from the eight decode functions is discharged (R4, shared "
-               "engine with C09); that Node::new calls flat_tree's partial functions only under a depth guard and Node::new_blank builds a 32-byte hash (R5).")
+               "engine with C09); that Node::new calls flat_tree's partial functions only under a depth guard and Node::new_blank builds a 32-byte hash and the same derived (non-wire) fields as Node::new, which the decoders use (R5).")
 NOT_DECIDED = "byte-level varint boundaries and length checks (inside the compact-encoding dependency); 'nothing left over' for nested decoders beyond shape agreement; equality of values (round-trip) as such."
 ASSUMPTIONS = ["compact_encoding's primitive encoders/decoders implement the compact-encoding spec and return Err on short input"]
